@@ -115,7 +115,7 @@ Example C20_nonvacuous_big :
   normal (PFrac (7 # 2)) /\ normal (PFrac (1 # 3)) /\ ~ den (PFrac (1 # 3)) == 0.
 Proof. exact Proofs.big_ints. Qed.
 Example C20_nonvacuous_inline :
-  inlined UInc = true /\ inlined UDec = true /\ inlined_name (s "+") = false /\
+  existsb inlined [UInc; UDec; UIncq; UDecq; UNeg; UAbs; UInv; UZerop] = true /\
   eval_inline (XUn UInc (XArith ODiv (XLit (PInt 1)) (XLit (PInt 2)))) = Val (PFrac (3 # 2)) /\
   eval_inline (XUn UInc (XArith ODiv (XLit (PInt 1)) (XLit (PInt 0)))) = Exc EZeroDiv.
 Proof. exact Proofs.inline_example. Qed.
